@@ -41,6 +41,7 @@ type Tok struct {
 	Inp  string `json:"inp,omitempty"` // PRE: "good" | "bad" input
 	Of   string `json:"of,omitempty"`  // BALOP: "SELF" or an account name
 	Ar   string `json:"ar,omitempty"`  // BALOP: what is done with the balance on the stack
+	Ref  int    `json:"ref,omitempty"` // RECREATE: token index of the CREATE2 whose salt and init code are used again
 }
 
 // preInput is the input the driver hands to a precompiled contract.  "good": accepted (every one needs more than one
@@ -182,11 +183,12 @@ func (u *unit) resolve() error {
 // ---------------------------------------------------------------------------------------------- compiler
 
 type compiler struct {
-	addr  map[string]common.Address
-	sels  map[string][]*frame         // contract name -> the sub-programs that run its code, by selector
-	selOf map[*frame]int              // frame -> its selector at the contract whose code it runs
-	sites map[common.Hash]map[int]int // code hash -> pc -> site
-	gasAt map[int]uint64              // site -> explicit gas argument (gas sweeps)
+	addr   map[string]common.Address
+	sels   map[string][]*frame         // contract name -> the sub-programs that run its code, by selector
+	selOf  map[*frame]int              // frame -> its selector at the contract whose code it runs
+	sites  map[common.Hash]map[int]int // code hash -> pc -> site
+	gasAt  map[int]uint64              // site -> explicit gas argument (gas sweeps)
+	bySite map[int]*frame              // site of a CREATE token -> its init frame (RECREATE)
 }
 
 var allGas = []byte{0xff, 0xff, 0xff, 0xff, 0xff, 0xff, 0xff, 0xff} // more than there is: all but 1/64
@@ -202,6 +204,9 @@ func gasArg(u *unit, v uint64) {
 
 // assign gives every message-call frame a selector at the contract whose code it executes.
 func (c *compiler) assign(f *frame) error {
+	if f.open.T == "CREATE" {
+		c.bySite[f.site] = f
+	}
 	if f.open.T == "CALL" {
 		n := f.open.To
 		if _, ok := c.sels[n]; !ok {
@@ -246,6 +251,42 @@ func (c *compiler) body(u *unit, f *frame) error {
 			u.pushBytes(allGas)
 			u.sites[len(u.code)] = n.site
 			u.opc(vm.CALL)
+			u.opc(vm.POP)
+		case "DEEP":
+			for i := 0; i < 5; i++ {
+				u.push(0)
+			}
+			u.pushBytes(c.addr["R"].Bytes())
+			u.pushBytes(allGas)
+			u.sites[len(u.code)] = n.site
+			u.opc(vm.CALL)
+			u.opc(vm.POP)
+		case "RECREATE":
+			rf := c.bySite[n.tok.Ref]
+			if rf == nil || rf.open.Kind != "CREATE2" {
+				return fmt.Errorf("RECREATE at %d does not refer to a CREATE2", n.site)
+			}
+			iu := newUnit()
+			iu.isInit = true
+			if err := c.body(iu, rf); err != nil {
+				return err
+			}
+			blob, err := c.finish(iu)
+			if err != nil {
+				return err
+			}
+			l := fmt.Sprintf("blob%d", len(u.blobs))
+			u.blobs = append(u.blobs, blob)
+			u.push(uint64(len(blob)))
+			u.pushLabel(l)
+			u.push(0)
+			u.opc(vm.CODECOPY)
+			u.push(uint64(n.tok.Ref)) // the same salt
+			u.push(uint64(len(blob)))
+			u.push(0)
+			u.push(uint64(n.tok.Val))
+			u.sites[len(u.code)] = n.site
+			u.opc(vm.CREATE2)
 			u.opc(vm.POP)
 		case "BALOP":
 			if n.tok.Of == "SELF" {
@@ -412,6 +453,18 @@ func (c *compiler) body(u *unit, f *frame) error {
 			u.push(0)
 			u.opc(vm.RETURN)
 		}
+	case "RETMAX": // exactly params.MaxCodeSize bytes of (mostly zero) memory
+		u.push(uint64(params.MaxCodeSize))
+		u.push(0)
+		u.opc(vm.RETURN)
+	case "RETOVER":
+		u.push(uint64(params.MaxCodeSize) + 1)
+		u.push(0)
+		u.opc(vm.RETURN)
+	case "RETHUGE":
+		u.push(40000)
+		u.push(0)
+		u.opc(vm.RETURN)
 	case "REVERT":
 		u.push(0)
 		u.push(0)
@@ -567,6 +620,11 @@ func (e *env) proj() *World {
 			w.Code[n] = ""
 		case e.own[n] != nil && string(code) == string(e.own[n]):
 			w.Code[n] = "own"
+			if n == "R" {
+				w.Code[n] = "rec"
+			}
+		case len(code) == params.MaxCodeSize:
+			w.Code[n] = "big"
 		case len(code) == 1 && code[0] == 0:
 			w.Code[n] = "rt"
 		default:
@@ -601,7 +659,8 @@ type CallRec struct {
 	G0      string `json:"g0"`   // caller's gas after paying for the instruction (CALL*: forwarded gas already deducted)
 	G1      string `json:"g1"`   // caller's gas when it continued
 	Gin     string `json:"gin"`  // callee's gas at its first instruction ("" when not entered)
-	Rev     bool   `json:"rev"`  // the callee's last instruction was a REVERT that executed (a failed frame that keeps its gas)
+	light   bool   // a site outside the program's code (inside the recursive helper): tracked, not projected, not emitted
+	Rev     bool   `json:"rev"` // the callee's last instruction was a REVERT that executed (a failed frame that keeps its gas)
 	Pre     *World `json:"pre"`
 	Post    *World `json:"post"`
 	depth   int
@@ -620,12 +679,14 @@ type SdRec struct {
 }
 
 type tracer struct {
-	e     *env
-	sites map[common.Hash]map[int]int
-	recs  []*CallRec
-	open  []int // indexes into recs: sites waiting for their callee to return, outermost first
-	sds   []SdRec
-	notes []string
+	maxDepth int // deepest frame that executed an instruction
+	lightN   int // call sites outside the program's code
+	e        *env
+	sites    map[common.Hash]map[int]int
+	recs     []*CallRec
+	open     []int // indexes into recs: sites waiting for their callee to return, outermost first
+	sds      []SdRec
+	notes    []string
 }
 
 func isCallLike(op vm.OpCode) bool {
@@ -641,6 +702,9 @@ func (t *tracer) CaptureStart(from common.Address, to common.Address, call bool,
 }
 
 func (t *tracer) CaptureState(evm *vm.EVM, pc uint64, op vm.OpCode, gas, cost uint64, memory *vm.Memory, stack *vm.Stack, contract *vm.Contract, depth int, err error) error {
+	if depth > t.maxDepth {
+		t.maxDepth = depth
+	}
 	// 1. sites whose callee has returned: the first capture back at the caller's depth closes them
 	for len(t.open) > 0 {
 		r := t.recs[t.open[len(t.open)-1]]
@@ -653,7 +717,9 @@ func (t *tracer) CaptureState(evm *vm.EVM, pc uint64, op vm.OpCode, gas, cost ui
 			d := stack.Data()
 			r.Ok = len(d) > 0 && d[len(d)-1].Sign() != 0
 			r.Rev = !r.Ok && r.Entered && r.lastOp == vm.REVERT && !r.lastErr
-			r.Post = t.e.proj()
+			if !r.light {
+				r.Post = t.e.proj()
+			}
 		} else {
 			t.notes = append(t.notes, fmt.Sprintf("site %d was never resumed", r.Site))
 		}
@@ -698,8 +764,12 @@ func (t *tracer) CaptureState(evm *vm.EVM, pc uint64, op vm.OpCode, gas, cost ui
 			}
 		}
 		r := &CallRec{Site: site, Op: op.String(), Parent: parent, Static: under, From: t.e.nameOf(contract.Address()),
-			G0: fmt.Sprint(contract.Gas), g0: contract.Gas,
-			Pre: t.e.proj(), depth: depth}
+			G0: fmt.Sprint(contract.Gas), g0: contract.Gas, depth: depth, light: site < 0}
+		if r.light {
+			t.lightN++
+		} else {
+			r.Pre = t.e.proj()
+		}
 		t.recs = append(t.recs, r)
 		t.open = append(t.open, len(t.recs)-1)
 	}
@@ -777,6 +847,13 @@ func runOne(b *Beh, ov *override) (*result, error) {
 		if t.T == "CREATE" {
 			e.names = append(e.names, fmt.Sprintf("K%d", i+1))
 		}
+		if t.T == "DEEP" {
+			if _, ok := e.addr["R"]; !ok {
+				e.addr["R"] = fixedAddr(0x40)
+				e.byAddr[e.addr["R"]] = "R"
+				e.names = append(e.names, "R")
+			}
+		}
 		if t.T == "PRE" && len(t.To) == 2 && t.To[0] == 'P' && t.To[1] >= '1' && t.To[1] <= '8' {
 			if _, ok := e.addr[t.To]; !ok {
 				e.addr[t.To] = common.BytesToAddress([]byte{t.To[1] - '0'})
@@ -786,7 +863,7 @@ func runOne(b *Beh, ov *override) (*result, error) {
 		}
 	}
 	c := &compiler{addr: e.addr, sels: map[string][]*frame{"A": nil, "B": nil, "C": nil}, selOf: map[*frame]int{},
-		sites: map[common.Hash]map[int]int{}, gasAt: map[int]uint64{}}
+		sites: map[common.Hash]map[int]int{}, gasAt: map[int]uint64{}, bySite: map[int]*frame{}}
 	limit := gasLimit
 	if ov != nil {
 		if ov.site == root.site {
@@ -821,6 +898,32 @@ func execute(b *Beh, e *env, c *compiler, codes map[string][]byte, root *frame, 
 		st.SetNonce(e.addr[n], 1)
 		st.SetCode(e.addr[n], codes[n])
 		e.own[n] = codes[n]
+	}
+	if ra, ok := e.addr["R"]; ok {
+		// R: call yourself with everything; if that call was refused (depth limit) record it in slot 1; return
+		r := newUnit()
+		for i := 0; i < 5; i++ {
+			r.push(0)
+		}
+		r.opc(vm.ADDRESS)
+		r.pushBytes(allGas)
+		r.opc(vm.CALL)
+		r.opc(vm.ISZERO)
+		r.pushLabel("rec")
+		r.opc(vm.JUMPI)
+		r.opc(vm.STOP)
+		r.label("rec")
+		r.opc(vm.JUMPDEST)
+		r.push(1)
+		r.push(1)
+		r.opc(vm.SSTORE)
+		r.opc(vm.STOP)
+		if err := r.resolve(); err != nil {
+			return err
+		}
+		st.SetNonce(ra, 1)
+		st.SetCode(ra, r.code)
+		e.own["R"] = r.code
 	}
 	// storage from earlier transactions (EvmFrames.tla InitSto): A.1 = 3, B.2 = 3, C.1 = C.2 = 3.  Set-up "fresh": all
 	// of it is committed; set-up "second": the slot-1 values are committed, the slot-2 values are written by the warm-up
@@ -928,11 +1031,35 @@ func execute(b *Beh, e *env, c *compiler, codes map[string][]byte, root *frame, 
 			r.Post = r.Pre
 		}
 	}
-	ev["calls"] = t.recs
-	if t.sds == nil {
-		t.sds = []SdRec{}
+	// the records of the program's own sites, with parent / frame indexes renumbered
+	idx := map[int]int{-1: -1}
+	emit := []*CallRec{}
+	for i, r := range t.recs {
+		if !r.light {
+			idx[i] = len(emit)
+			emit = append(emit, r)
+		}
 	}
-	ev["sds"] = t.sds
+	for _, r := range emit {
+		if p, ok := idx[r.Parent]; ok {
+			r.Parent = p
+		} else {
+			r.Parent = 0
+		}
+	}
+	sds := []SdRec{}
+	for _, sd := range t.sds {
+		if f, ok := idx[sd.Frame]; ok {
+			sd.Frame = f
+			sds = append(sds, sd)
+		}
+	}
+	res.recs = emit
+	ev["calls"] = emit
+	ev["sds"] = sds
+	if t.lightN > 0 {
+		ev["deep"] = map[string]int{"sites": t.lightN, "maxdepth": t.maxDepth}
+	}
 	if len(t.notes) > 0 {
 		ev["notes"] = t.notes
 	}
